@@ -205,12 +205,12 @@ def derive_seed(*parts):
 
 
 def load_known_findings():
+    out = []
     path = os.path.join(VERIF_DIR, "known_findings.json")
-    if not os.path.exists(path):
-        return []
-    with open(path) as f:
-        data = json.load(f)
-    return data.get("findings", [])
+    if os.path.exists(path):
+        with open(path) as f:
+            out += json.load(f).get("findings", [])
+    return out
 
 
 def _match_value(pred, val):
